@@ -32,8 +32,10 @@ func formatSlotToCidKey(slot uint64) string {
 	return "s2c-" + strconv.FormatUint(slot, 10)
 }
 
-func formatOffsetAndSizeKey(c cid.Cid) string {
-	return "o&s-" + c.String()
+// formatOffsetAndSizeKey includes the epoch: the offset of an object is a property of one
+// epoch's CAR file, and byte-identical objects (same CID) can be stored in several epochs.
+func formatOffsetAndSizeKey(epoch uint64, c cid.Cid) string {
+	return "o&s-" + strconv.FormatUint(epoch, 10) + "-" + c.String()
 }
 
 // PutRawCarObject stores the raw CAR object data.
@@ -74,18 +76,21 @@ func (r *Cache) GetSlotToCid(slot uint64) (cid.Cid, error, bool) {
 	}
 }
 
-func (r *Cache) PutCidToOffsetAndSize(c cid.Cid, oas *indexes.OffsetAndSize) error {
+// PutCidToOffsetAndSize stores where the object with the given CID is located in the CAR file of the given epoch.
+func (r *Cache) PutCidToOffsetAndSize(epoch uint64, c cid.Cid, oas *indexes.OffsetAndSize) error {
 	if oas == nil {
 		return errors.New("offset and size is nil")
 	}
 	if !oas.IsValid() {
 		return errors.New("offset and size is invalid")
 	}
-	return r.cache.Set(formatOffsetAndSizeKey(c), oas.Bytes())
+	return r.cache.Set(formatOffsetAndSizeKey(epoch, c), oas.Bytes())
 }
 
-func (r *Cache) GetCidToOffsetAndSize(c cid.Cid) (*indexes.OffsetAndSize, error, bool) {
-	if v, err := r.cache.Get(formatOffsetAndSizeKey(c)); err == nil {
+// GetCidToOffsetAndSize returns the location of the object with the given CID in the CAR file of the given epoch,
+// if it exists in the cache.
+func (r *Cache) GetCidToOffsetAndSize(epoch uint64, c cid.Cid) (*indexes.OffsetAndSize, error, bool) {
+	if v, err := r.cache.Get(formatOffsetAndSizeKey(epoch, c)); err == nil {
 		var oas indexes.OffsetAndSize
 		if err := oas.FromBytes(v); err != nil {
 			return nil, err, false
